@@ -39,6 +39,7 @@ Ltac is_canon2 v :=
   | VNone => idtac | VBool _ => idtac | VInt _ => idtac | VFloat _ => idtac
   | VStr _ => idtac | VErr _ => idtac | VFun _ _ => idtac | VDict _ => idtac
   | VTuple ?l => canon_list2 l | VList ?l => canon_list2 l | VObj _ ?l => canon_list2 l
+  | _ => is_var v      (* an arbitrary value: only ever stored, never inspected *)
   end
 with canon_list2 l :=
   lazymatch l with
